@@ -223,7 +223,9 @@ func checkCatalog(rep *Replica, r *simkit.Run, inPlace bool) *c07Finding {
 	}
 	for _, s := range cat.Services {
 		ta, ok := s.ServiceTaggedAddresses[structs.TaggedAddressVirtualIP]
-		if !ok {
+		if !ok || s.PeerName != "" {
+			// imported instances: the virtual IP of a peered service follows the instances imported under
+			// its own name by design (TestServerPeeredUpstreams), not the proxies that advertise it
 			continue
 		}
 		name := s.ServiceName
